@@ -206,6 +206,20 @@ def run(case):
             A.commit()
         except UndoError:
             A.abort()
+        except POSKeyError as e:
+            # an undo may bring back a reference to an object whose
+            # creation was undone as well (a documented hazard of undo):
+            # the application then cannot load it.  Anything else missing
+            # is reported.
+            A.abort()
+            oid = e.args[0] if e.args else None
+            if not isinstance(oid, bytes):
+                raise
+            cur = log.state_before(oid, b'\xff' * 8)
+            if cur is not None and cur[1].kind != UNCREATE:
+                raise
+            stats['live_write_to_dangling'] = \
+                stats.get('live_write_to_dangling', 0) + 1
         adopt()
         if aux is not None:
             dbh.adopt(log2, aux.storage)
